@@ -68,6 +68,8 @@ type Model struct {
 	ByObj     map[*types.Func]*FuncUnit
 	LitUnit   map[*ast.FuncLit]*FuncUnit
 	NoBody    map[*types.Func]*ast.FuncDecl // prototypes implemented in assembly
+	LitOfVar  map[*types.Var]*FuncUnit      // local variable bound once to a function literal
+	LeafConstraint *types.Named
 
 	MaxPrefixLen int64
 }
@@ -275,6 +277,7 @@ func buildModel(l *Loaded) (*Model, error) {
 	}
 	// leaf constraint terms
 	if o := scope.Lookup("nodeLeaf"); o != nil {
+		m.LeafConstraint = namedOf(o.Type())
 		if it, ok := o.Type().Underlying().(*types.Interface); ok {
 			for i := 0; i < it.NumEmbeddeds(); i++ {
 				if u, ok := it.EmbeddedType(i).(*types.Union); ok {
@@ -292,6 +295,42 @@ func buildModel(l *Loaded) (*Model, error) {
 	}
 	if c, ok := scope.Lookup("maxPrefixLen").(*types.Const); ok {
 		m.MaxPrefixLen, _ = constant.Int64Val(c.Val())
+	}
+	// local closures bound once to a variable
+	m.LitOfVar = map[*types.Var]*FuncUnit{}
+	counts := map[*types.Var]int{}
+	for _, u := range m.Units {
+		if u.Lit != nil {
+			continue // nested literals are visited through their declaration
+		}
+		ast.Inspect(u.Body, func(n ast.Node) bool {
+			as, ok := n.(*ast.AssignStmt)
+			if !ok {
+				return true
+			}
+			for i, lh := range as.Lhs {
+				id, ok := lh.(*ast.Ident)
+				if !ok {
+					continue
+				}
+				v, _ := m.Info.ObjectOf(id).(*types.Var)
+				if v == nil {
+					continue
+				}
+				counts[v]++
+				if len(as.Lhs) == len(as.Rhs) {
+					if fl, ok := ast.Unparen(as.Rhs[i]).(*ast.FuncLit); ok {
+						m.LitOfVar[v] = m.LitUnit[fl]
+					}
+				}
+			}
+			return true
+		})
+	}
+	for v := range m.LitOfVar {
+		if counts[v] != 1 {
+			delete(m.LitOfVar, v)
+		}
 	}
 	// leaf type per tree kind: composite literal inside Insert
 	for _, tk := range m.Trees {
